@@ -52,6 +52,18 @@ def _check_iv(case, exact):
                     msg = f"crop({a},{b},{tag}) returned an ill-formed tier ({w}): {ents(r)} span {r.minTimestamp},{r.maxTimestamp}"
             if msg is None and r.name != "t":
                 msg = "crop changed the tier name"
+            if msg is None:
+                # the caller edits the result; the same crop again gives a new object with the same (correct) content
+                first = ents(r)
+                if first:
+                    call(r.deleteEntry, r.entries[0])
+                else:
+                    call(r.insertEntry, (r.minTimestamp, r.maxTimestamp, "edited"), "merge", "silence")
+                n += 1
+                st2, r2, _ = call(tier.crop, a, b, mode, rb)
+                if st2 != "ok" or r2 is r or ents(r2) != first:
+                    msg = (f"crop({a},{b},{tag}) called again after its first result had been edited returns "
+                           f"{'the same object' if r2 is r else (ents(r2) if st2 == 'ok' else repr(r2))}, first call gave {first}")
             if msg:
                 viols.append(Viol("crop-result", msg + f"  [tier {entries} span {lo},{hi}]"))
             summary.append(str(len(exp)))
